@@ -24,7 +24,7 @@ from pyvc.smt import discharge, refute, model_for          # noqa: E402
 from pyvc.state import Unsupported                         # noqa: E402
 
 
-_UNI = _CONTRACTS = _TIMEOUT = None
+_UNI = _CONTRACTS = _TIMEOUT = _PROCS = None
 
 
 class _Stub:
@@ -39,20 +39,25 @@ class _Rep:
     pass
 
 
-def _work(idx):
-    """verify one contract and solve its obligations (runs in a fork)"""
+def _work(job):
+    """explore one symbolic path of one contract and solve its obligations
+    (runs in a forked worker)"""
     import hashlib
     from pyvc.smt import _solve
+    from pyvc.verify import explore_path
+    idx, prefix = job
     c = _CONTRACTS[idx]
     n_before = len(_UNI.assumptions)
+    t0 = time.time()
     try:
-        rep = verify_function(_UNI, c)
+        obls, more, rep = explore_path(_UNI, c, prefix)
     except ExtractionError as err:
-        return {"extraction": str(err)}
+        return idx, {"extraction": str(err)}
     except Exception as err:       # noqa
-        return {"crash": f"{err!r}\n{traceback.format_exc()}"}
+        return idx, {"crash": f"{err!r}\n{traceback.format_exc()}"}
+    gen_s = time.time() - t0
     cache, results, solver_s = {}, [], 0.0
-    for ob in rep.obligations:
+    for ob in obls:
         text = ob.smt2()
         h = hashlib.sha256(text.encode()).hexdigest()
         if h not in cache:
@@ -62,16 +67,77 @@ def _work(idx):
         r, backend, secs = cache[h]
         results.append((ob.name, r, backend, secs, tuple(ob.path),
                         str(ob.goal)[:300]))
+    return idx, {"more": more, "results": results, "solver_s": solver_s,
+                 "unique": len(cache), "exits": rep.exits,
+                 "unsupported": rep.unsupported, "bounded": rep.bounded,
+                 "gen_s": gen_s,
+                 "assumptions": _UNI.assumptions[n_before:],
+                 "used": dict(_UNI.repo.used)}
+
+
+def _merge_outs(c, parts, max_paths=4000):
+    """combine the per-path results of one contract"""
+    for p in parts:
+        if "extraction" in p or "crash" in p:
+            return p
     lite = _Rep()
     lite.contract = c
-    lite.paths, lite.exits = rep.paths, rep.exits
-    lite.unsupported, lite.bounded = rep.unsupported, rep.bounded
-    lite.obligations = [None] * len(rep.obligations)
-    lite.wall = rep.wall
+    lite.paths = len(parts)
+    lite.exits = {"return": 0, "raise": {}}
+    lite.unsupported, lite.bounded, lite.wall = None, False, 0.0
+    results, solver_s, unique, assumptions, used = [], 0.0, 0, [], {}
+    for p in parts:
+        lite.exits["return"] += p["exits"]["return"]
+        for k, v in p["exits"]["raise"].items():
+            lite.exits["raise"][k] = lite.exits["raise"].get(k, 0) + v
+        lite.unsupported = lite.unsupported or p["unsupported"]
+        lite.bounded = lite.bounded or p["bounded"]
+        lite.wall += p["gen_s"]
+        results.extend(p["results"])
+        solver_s += p["solver_s"]
+        unique += p["unique"]
+        for a in p["assumptions"]:
+            if a not in assumptions:
+                assumptions.append(a)
+        used.update(p["used"])
+    if len(parts) > max_paths:
+        lite.unsupported = f"more than {max_paths} paths"
+    lite.obligations = [None] * len(results)
     return {"report": lite, "results": results, "solver_s": solver_s,
-            "unique": len(cache),
-            "assumptions": _UNI.assumptions[n_before:],
-            "used": dict(_UNI.repo.used)}
+            "unique": unique, "assumptions": assumptions, "used": used}
+
+
+def _run_all(todo, max_paths=4000):
+    """path-level parallel exploration of all contracts"""
+    import multiprocessing as mp
+    parts = {i: [] for i in range(len(todo))}
+    jobs = [(i, []) for i in range(len(todo))]
+    if not jobs:
+        return []
+    ctx = mp.get_context("fork")
+    nproc = int(os.environ.get("VERIF_PROCS", "0")) or \
+        min(16, _PROCS or 2 * len(todo))
+    with ctx.Pool(nproc) as pool:
+        pending = [pool.apply_async(_work, (j,)) for j in jobs]
+        while pending:
+            nxt = []
+            progressed = False
+            for h in pending:
+                if not h.ready():
+                    nxt.append(h)
+                    continue
+                progressed = True
+                idx, out = h.get()
+                parts[idx].append(out)
+                if "more" in out and not out["unsupported"] and \
+                        len(parts[idx]) <= max_paths:
+                    for pre in out["more"]:
+                        nxt.append(pool.apply_async(_work, ((idx, pre),)))
+            pending = nxt
+            if not progressed:
+                time.sleep(0.02)
+    return [_merge_outs(todo[i], parts[i], max_paths)
+            for i in range(len(todo))]
 
 
 class Extra:
@@ -164,17 +230,12 @@ def run(prop, tier, seed, update_lock=False, verbose=False):
         return finish(prop, tier, seed, t0, uni, [], [], [], result, mod,
                       exit_code=2, note=str(err))
     # ---- VC generation + discharge (one worker per contract, forked) ----
-    global _UNI, _CONTRACTS, _TIMEOUT
+    global _UNI, _CONTRACTS, _TIMEOUT, _PROCS
+    _PROCS = getattr(mod, "PROCS", None)
     todo = [c for c in contracts if not c.assumed]
     _UNI, _CONTRACTS, _TIMEOUT = uni, todo, timeout_ms
     stats = {"solver_s": 0.0, "unique_queries": 0}
-    if len(todo) > 1:
-        import multiprocessing as mp
-        ctx = mp.get_context("fork")
-        with ctx.Pool(min(16, len(todo))) as pool:
-            outs = pool.map(_work, range(len(todo)), chunksize=1)
-    else:
-        outs = [_work(i) for i in range(len(todo))]
+    outs = _run_all(todo)
     by_name = {}
     for c, out in zip(todo, outs):
         if "extraction" in out:
